@@ -82,7 +82,28 @@ def _zero_pad_ok(ex, padded: Term, data_param: str, block: int = 16):
         co, k, lo, hi = cg
         want = {len_key(d): (block - 1)}
         if not (co == want and k == 0 and lo == 0 and hi == block - 1):
-            return False, "pad length %s is not (-len(data)) mod %d in [0,%d]" % (show(c, 5), block, block - 1)
+            # the same count written differently (rounding up with divmod, a ceiling division, ...): an arithmetic function of len(data) alone, periodic in it with
+            # period `block` by construction of the accepted operators (+, -, *, //, % by constants, comparisons); evaluated for every length 0 .. 8 * block
+            from bfsa.evalterm import NoEval, eval_term
+
+            lens = [t_ for t_ in subterms(unsnap(c)) if t_.op == "len" and unsnap(t_.args[0]) is d]
+            others = [t_ for t_ in subterms(unsnap(c)) if t_.op in ("param", "loopvar", "attr", "call") and not (t_.op == "param" and t_ is d)]
+            bad_ = None
+            big = [t_ for t_ in subterms(unsnap(c)) if is_const(t_) and isinstance(cval(t_), int) and not isinstance(cval(t_), bool) and abs(cval(t_)) > 4 * block]
+            if not lens or others or big:
+                # (a constant beyond the evaluated lengths could hide a case the grid does not reach)
+                bad_ = "not a function of len(data) and small constants alone"
+            else:
+                try:
+                    for n_ in range(0, 8 * block + 1):
+                        v_ = eval_term(c, {lens[0].uid: n_})
+                        if isinstance(v_, bool) or v_ != (-n_) % block:
+                            bad_ = "for len(data) = %d it is %r" % (n_, v_)
+                            break
+                except (NoEval, TypeError, KeyError, ZeroDivisionError) as e_:
+                    bad_ = "not evaluable (%s)" % (e_,)
+            if bad_ is not None:
+                return False, "pad length %s is not (-len(data)) mod %d in [0,%d]: %s" % (show(c, 5), block, block - 1, bad_)
     return True, ""
 
 
